@@ -61,5 +61,10 @@ pub fn catch<R>(f: impl FnOnce() -> R) -> Result<R, String> {
 
 /// Install a panic hook that prints nothing (subjects are expected to be probed for panics).
 pub fn quiet_panics() {
-    std::panic::set_hook(Box::new(|_| {}));
+    std::panic::set_hook(Box::new(|info| {
+        // worker threads probe subjects for panics; only harness panics on the main thread are printed
+        if std::thread::current().name() == Some("main") {
+            eprintln!("harness panic: {info}");
+        }
+    }));
 }
